@@ -197,6 +197,10 @@ def parse_numbers(numbers, is_date=False):
         for w in colonList:
             if w == "":
                 verif.util.error("Could not parse '%s'. Empty value." % (numbers))
+            try:
+                float(w)
+            except ValueError:
+                verif.util.error("Could not parse '%s': '%s' is not a number." % (numbers, w))
         if len(colonList) == 1:
             values.append(float(colonList[0]))
         elif len(colonList) <= 3:
@@ -209,6 +213,8 @@ def parse_numbers(numbers, is_date=False):
             stepSign = step / abs(step)
             # arange does not include the end point:
             end = float(colonList[-1]) + stepSign * 0.0001
+            if is_date and step != int(step):
+                verif.util.error("Could not parse '%s': The step of a date range must be a whole number of days." % (numbers))
             if is_date:
                 first = int(min(start, float(colonList[-1])))
                 last = int(max(start, float(colonList[-1])))
